@@ -66,7 +66,17 @@ func (s *Sim) loop() {
 			continue
 		}
 		sort.Slice(st.runnable, func(i, j int) bool { return st.runnable[i].id.less(&st.runnable[j].id) })
-		if s.stallPct > 0 {
+		newborn := false
+		if s.newbornLast {
+			for _, t := range st.runnable {
+				if t.site == "start" {
+					newborn = true
+				}
+			}
+		}
+		// (a goroutine that has not begun to run is held back for a bounded number of steps of one
+		// instant, never across a stall: start latency is scheduling noise, not simulated seconds)
+		if s.stallPct > 0 && !newborn {
 			v := s.draw(KStall, 1000, nil)
 			if v >= 1000-s.stallPct {
 				e := s.draw(KStall, 8, nil)
@@ -96,6 +106,20 @@ func (s *Sim) loop() {
 			for i, t := range st.runnable {
 				if s.steps-t.runnableSince > starvationBound {
 					return i
+				}
+			}
+			if s.newbornLast {
+				// choose among the tasks that have run before, if there is one
+				var old []*task
+				var idx []int
+				for i, t := range st.runnable {
+					if t.site != "start" || s.steps-t.runnableSince > 300 {
+						old = append(old, t)
+						idx = append(idx, i)
+					}
+				}
+				if len(old) > 0 && len(old) < len(st.runnable) {
+					return idx[s.pick(old)]
 				}
 			}
 			return s.pick(st.runnable)
